@@ -45,6 +45,7 @@ def check(tier, seed):
     with C.WorkDir('C14') as wd:
         C.audit_sources()
         C.props_obligations(res, 'C14', wd)
+        C.tie_b_kernels(res, wd, ('cfgkeys',))
         from .. import reflect
         kt = reflect.key_tables()
         sk = ','.join(str(k) for k in kt['signed']) or '-'
